@@ -174,7 +174,7 @@ Section Run.
       (forall g, g <> ho -> ps_hget g (ps_hs s') = ps_hget g (ps_hs s)).
   Proof.
     intros s ho F pos sz [(n & pend & Hh) Hp].
-    unfold ps_step. rewrite Hh. cbn [ph_open ph_mode ps_writable negb andb ph_pos ph_data ph_name ph_pend].
+    unfold ps_step. rewrite Hh. cbn [psh_open psh_mode ps_writable negb andb psh_pos psh_data psh_name psh_pend].
     unfold ps_item. rewrite ps_len_drop by exact Hp.
     destruct (Z.ltb_spec 0 sz) as [Hsz|Hsz]; cbn [andb].
     - destruct (Z.leb_spec (pos + sz) (len F)) as [Hle|Hle];
@@ -207,7 +207,7 @@ Section Run.
       (forall g, g <> ho -> ps_hget g (ps_hs s') = ps_hget g (ps_hs s)).
   Proof.
     intros s ho F pos cap [(n & pend & Hh) Hp] l.
-    unfold ps_step. rewrite Hh. cbn [ph_open ph_mode ps_writable negb andb ph_pos ph_data ph_name ph_pend].
+    unfold ps_step. rewrite Hh. cbn [psh_open psh_mode ps_writable negb andb psh_pos psh_data psh_name psh_pend].
     fold l. destruct l as [|b tl] eqn:El.
     - exists s. split; [reflexivity|]. change (len (@nil Z)) with 0. rewrite Z.add_0_r.
       split; [split; [exists n, pend; exact Hh|exact Hp]|]. repeat split; reflexivity.
@@ -230,7 +230,7 @@ Section Run.
     apply ps_out_spec in Ho.
     destruct Ho as (x & now & later & Hx & Hop & Hwr & Hsplit & _ & Hf & Hhs & Hn).
     rewrite Hh in Hx. inversion Hx; subst x; clear Hx.
-    cbn [ph_name ph_mode ph_data ph_pos ph_pend] in *.
+    cbn [psh_name psh_mode psh_data psh_pos psh_pend] in *.
     split; [|split; [exact Hn|split]].
     - split; [|split; [exact Ht|]].
       + exists md, dd, q, later, (disk ++ now). split; [exact Hw|]. split; [|split].
@@ -247,8 +247,8 @@ Section Run.
     ps_txw s hn tmp W V -> exists s', ps_out pol s hn d false false = Some s'.
   Proof.
     intros s hn tmp W V d [(md & dd & q & pend & disk & Hw & Hh & _) _].
-    unfold ps_out. rewrite Hh. cbn [ph_open ph_mode]. rewrite Hw. cbn [andb].
-    destruct (ps_push pol (ph_pend _) d). eexists; reflexivity.
+    unfold ps_out. rewrite Hh. cbn [psh_open psh_mode]. rewrite Hw. cbn [andb].
+    destruct (ps_push pol (psh_pend _) d). eexists; reflexivity.
   Qed.
 
   Lemma ps_txr_frame : forall s s' ho F pos,
